@@ -69,10 +69,29 @@ pub struct Backend {
     pub key_roundtrip: fn(&str, &[u8]) -> R<Vec<u8>>,
     /// LocalKey::from([u8;32]) -> bytes
     pub local_from_array: fn([u8; 32]) -> R<Vec<u8>>,
+    /// PASERK.  kind: "local" | "secret"
+    pub pie_wrap: fn(&str, &[u8], &[u8]) -> R<String>,
+    pub pie_unwrap: fn(&str, &[u8], &str) -> R<Vec<u8>>,
+    /// (kind, password, raw parameter bytes or None for the defaults, key bytes)
+    pub pw_wrap: fn(&str, &[u8], Option<&[u8]>, &[u8]) -> R<String>,
+    pub pw_unwrap: fn(&str, &[u8], &str) -> R<Vec<u8>>,
+    /// (recipient public key bytes, local key bytes)
+    pub pke_seal: fn(&[u8], &[u8]) -> R<String>,
+    /// (recipient secret key bytes, sealed string) -> local key bytes
+    pub pke_unseal: fn(&[u8], &str) -> R<Vec<u8>>,
+    /// key id string, by kind "local" | "public" | "secret"
+    pub key_id: fn(&str, &[u8]) -> R<String>,
+    /// PASERK text of a key after decoding: by kind
+    pub key_text: fn(&str, &[u8]) -> R<String>,
+    /// Key::from_str then re-encode, by kind
+    pub key_parse: fn(&str, &str) -> R<Vec<u8>>,
+    pub pw_prefix_len: usize,
+    pub pw_param_off: usize,
+    pub pw_param_len: usize,
 }
 
 macro_rules! backend {
-    ($name:literal, $ver:literal, $V:ty, $scripted:expr, $aad:expr, $nl:expr, $tl:expr, $sl:expr) => {{
+    ($name:literal, $ver:literal, $V:ty, $scripted:expr, $aad:expr, $nl:expr, $tl:expr, $sl:expr, $pl:expr, $po:expr, $pn:expr) => {{
         fn local_seal_nonce(key: &[u8], nonce: Vec<u8>, m: &[u8], f: &[u8], a: &[u8]) -> R<String> {
             guard(|| {
                 let k = key_from::<$V, Local>(key)?;
@@ -146,6 +165,94 @@ macro_rules! backend {
         fn local_from_array(b: [u8; 32]) -> R<Vec<u8>> {
             guard(|| Ok(key_bytes(&paseto_core::LocalKey::<$V>::from(b))))
         }
+        fn pie_wrap(kind: &str, wk: &[u8], key: &[u8]) -> R<String> {
+            let kind = kind.to_string();
+            guard(|| {
+                let w = key_from::<$V, Local>(wk)?;
+                Ok(if kind == "local" { key_from::<$V, Local>(key)?.wrap_pie(&w)?.to_string() } else { key_from::<$V, Secret>(key)?.wrap_pie(&w)?.to_string() })
+            })
+        }
+        fn pie_unwrap(kind: &str, wk: &[u8], s: &str) -> R<Vec<u8>> {
+            use paseto_core::paserk::PieWrappedKey;
+            let kind = kind.to_string();
+            guard(|| {
+                let w = key_from::<$V, Local>(wk)?;
+                Ok(if kind == "local" { key_bytes(&PieWrappedKey::<$V, Local>::from_str(s)?.unwrap(&w)?) } else { key_bytes(&PieWrappedKey::<$V, Secret>::from_str(s)?.unwrap(&w)?) })
+            })
+        }
+        fn pw_wrap(kind: &str, pass: &[u8], params: Option<&[u8]>, key: &[u8]) -> R<String> {
+            use paseto_core::paserk::PasswordWrappedKey;
+            let kind = kind.to_string();
+            guard(|| {
+                // parameters other than the defaults can only be obtained from a parsed blob
+                let p = match params {
+                    None => None,
+                    Some(raw) => {
+                        let mut blob = vec![0u8; $pl];
+                        blob[$po..$po + raw.len()].copy_from_slice(raw);
+                        blob.extend_from_slice(&[0u8; 80]);
+                        let text = format!("{}.local-pw.{}", <$V as paseto_core::version::Version>::PASERK_HEADER, b64(&blob));
+                        Some(PasswordWrappedKey::<$V, Local>::from_str(&text)?.params()?)
+                    }
+                };
+                Ok(if kind == "local" {
+                    let k = key_from::<$V, Local>(key)?;
+                    match &p { None => k.password_wrap(pass)?, Some(p) => k.password_wrap_with_params(pass, p)? }.to_string()
+                } else {
+                    let k = key_from::<$V, Secret>(key)?;
+                    match &p { None => k.password_wrap(pass)?, Some(p) => k.password_wrap_with_params(pass, p)? }.to_string()
+                })
+            })
+        }
+        fn pw_unwrap(kind: &str, pass: &[u8], s: &str) -> R<Vec<u8>> {
+            use paseto_core::paserk::PasswordWrappedKey;
+            let kind = kind.to_string();
+            guard(|| {
+                Ok(if kind == "local" { key_bytes(&PasswordWrappedKey::<$V, Local>::from_str(s)?.unwrap(pass)?) } else { key_bytes(&PasswordWrappedKey::<$V, Secret>::from_str(s)?.unwrap(pass)?) })
+            })
+        }
+        fn pke_seal(pk: &[u8], key: &[u8]) -> R<String> {
+            use paseto_core::version::PkePublic;
+            guard(|| Ok(key_from::<$V, Local>(key)?.seal(&key_from::<$V, PkePublic>(pk)?)?.to_string()))
+        }
+        fn pke_unseal(sk: &[u8], s: &str) -> R<Vec<u8>> {
+            use paseto_core::paserk::SealedKey;
+            use paseto_core::version::PkeSecret;
+            guard(|| Ok(key_bytes(&SealedKey::<$V>::from_str(s)?.unseal(&key_from::<$V, PkeSecret>(sk)?)?)))
+        }
+        fn key_id(kind: &str, b: &[u8]) -> R<String> {
+            let kind = kind.to_string();
+            guard(|| {
+                Ok(match kind.as_str() {
+                    "local" => key_from::<$V, Local>(b)?.id().to_string(),
+                    "public" => key_from::<$V, Public>(b)?.id().to_string(),
+                    "secret" => key_from::<$V, Secret>(b)?.id().to_string(),
+                    other => panic!("kind {other}"),
+                })
+            })
+        }
+        fn key_text(kind: &str, b: &[u8]) -> R<String> {
+            let kind = kind.to_string();
+            guard(|| {
+                Ok(match kind.as_str() {
+                    "local" => key_from::<$V, Local>(b)?.expose_key().to_string(),
+                    "public" => key_from::<$V, Public>(b)?.to_string(),
+                    "secret" => key_from::<$V, Secret>(b)?.expose_key().to_string(),
+                    other => panic!("kind {other}"),
+                })
+            })
+        }
+        fn key_parse(kind: &str, s: &str) -> R<Vec<u8>> {
+            let kind = kind.to_string();
+            guard(|| {
+                Ok(match kind.as_str() {
+                    "local" => key_bytes(&Key::<$V, Local>::from_str(s)?),
+                    "public" => key_bytes(&Key::<$V, Public>::from_str(s)?),
+                    "secret" => key_bytes(&Key::<$V, Secret>::from_str(s)?),
+                    other => panic!("kind {other}"),
+                })
+            })
+        }
         fn _bounds()
         where
             $V: SealingVersion<Local> + SealingVersion<Public> + UnsealingVersion<Local> + UnsealingVersion<Public>,
@@ -169,18 +276,30 @@ macro_rules! backend {
             public_of_secret,
             key_roundtrip,
             local_from_array,
+            pie_wrap,
+            pie_unwrap,
+            pw_wrap,
+            pw_unwrap,
+            pke_seal,
+            pke_unseal,
+            key_id,
+            key_text,
+            key_parse,
+            pw_prefix_len: $pl,
+            pw_param_off: $po,
+            pw_param_len: $pn,
         }
     }};
 }
 
 pub fn backends() -> Vec<Backend> {
     vec![
-        backend!("v1", "v1", V1, true, false, 32, 48, 256),
-        backend!("v2", "v2", V2, true, false, 24, 16, 64),
-        backend!("v3", "v3", V3, true, true, 32, 48, 96),
-        backend!("v3-aws-lc", "v3", V3L, false, true, 32, 48, 96),
-        backend!("v4", "v4", V4, true, true, 32, 32, 64),
-        backend!("v4-sodium", "v4", V4S, false, true, 32, 32, 64),
+        backend!("v1", "v1", V1, true, false, 32, 48, 256, 52, 32, 4),
+        backend!("v2", "v2", V2, true, false, 24, 16, 64, 56, 16, 16),
+        backend!("v3", "v3", V3, true, true, 32, 48, 96, 52, 32, 4),
+        backend!("v3-aws-lc", "v3", V3L, false, true, 32, 48, 96, 52, 32, 4),
+        backend!("v4", "v4", V4, true, true, 32, 32, 64, 56, 16, 16),
+        backend!("v4-sodium", "v4", V4S, false, true, 32, 32, 64, 56, 16, 16),
     ]
 }
 
